@@ -156,7 +156,10 @@ func c11Scenarios(era drive.Era) []c11Scenario {
 	}})
 	if era.V20 == 0 {
 		for _, n := range []int{24, 25, 26} {
-			for _, who := range []string{"top-holder", "holder-101", "non-holder"} {
+			for _, who := range []string{"top-holder", "holder-101", "non-holder", "top-holder-id+1byte", "top-holder-id-31bytes", "empty-id"} {
+				if n != 25 && len(who) > 10 && who != "holder-101" && who != "non-holder" {
+					continue // id-shape variants: one set size
+				}
 				for _, sig := range []string{"own-key", "other-key"} {
 					n, who, sig := n, who, sig
 					if era.SprSig != 0 && sig == "other-key" {
@@ -195,7 +198,7 @@ func c11SPRs(b *drive.Builder, n int, who, sig string, holders []int, dupPayout 
 	for i := 0; i < n; i++ {
 		var stakerKey int
 		switch who {
-		case "top-holder":
+		case "top-holder", "top-holder-id+1byte", "top-holder-id-31bytes", "empty-id":
 			stakerKey = holders[i%50] // within the top 100
 		case "holder-101":
 			stakerKey = holders[len(holders)-1]
@@ -216,7 +219,16 @@ func c11SPRs(b *drive.Builder, n int, who, sig string, holders []int, dupPayout 
 		if h < b.Era.DevRewards {
 			rates = R1() // the 2.0 band (0.1% / 1%) is narrower than the noise: a noisy SPR winner would be a band conflict
 		}
-		out = append(out, kit.SPRSpec{Version: ver, Height: int32(h), Rates: rates, Coinbase: kit.AddrStr(pay), ID: fmt.Sprintf("s%d", i), Staker: staker[:], SignWith: &k}.Entry())
+		id := staker[:]
+		switch who {
+		case "top-holder-id+1byte":
+			id = append(append([]byte{}, id...), 1) // not an address of anybody: its first 32 bytes are
+		case "top-holder-id-31bytes":
+			id = id[:31]
+		case "empty-id":
+			id = nil
+		}
+		out = append(out, kit.SPRSpec{Version: ver, Height: int32(h), Rates: rates, Coinbase: kit.AddrStr(pay), ID: fmt.Sprintf("s%d", i), Staker: id, SignWith: &k}.Entry())
 	}
 	return out
 }
